@@ -178,8 +178,9 @@ pub struct RunEnd {
 
 pub fn finish_run(coll: &HookCollector, mut daemon: Daemon, end: WaitEnd) -> RunEnd {
 	let state_before_kill = daemon.state();
-	let records = coll.records();
+	// the daemon (and its hooks) first, the records afterwards: what a CA logged up to the kill then has its hook records
 	daemon.kill();
+	let records = coll.records();
 	coll.release();
 	let stderr_tail = daemon.stderr_tail(25);
 	RunEnd { end, records, stderr_tail, state_before_kill }
